@@ -1012,7 +1012,7 @@ func (p *Parser) parseRegexpLiteral() ast.Expression {
 				val = val[i+1:]
 				break
 			} else {
-				flags += string(val[i])
+				flags += val[i : i+1]
 			}
 
 			i++
